@@ -176,3 +176,90 @@ fn c14_setters() {
     kani::cover!(v == 60);
     kani::cover!(v == w && v == 12);
 }
+
+// @ob tier=quick timeout=900 mem=12
+// @desc quick instance of the date-resolution soundness obligation on the calendar-date family: all subsets of {year, century, two-digit year, quarter, month, day, ordinal} with arbitrary values: a successful to_naive_date agrees with every supplied field (in particular a century/two-digit pair never resolves to a year it does not denote, also for centuries near i32::MAX)
+// @bounds every Option field symbolic (presence and full-width value): 2^7 subsets x all values; the other 7 date fields absent; month scan unwound 13
+// @funcs Parsed::to_naive_date (resolve_year, verify_ymd, verify_ordinal, quarter check)
+#[kani::proof]
+#[kani::unwind(13)]
+fn c14_date_sound_ymd() {
+    let mut p = Parsed::new();
+    p.year = opt_i32();
+    p.year_div_100 = opt_i32();
+    p.year_mod_100 = opt_i32();
+    p.quarter = opt_u32();
+    p.month = opt_u32();
+    p.ordinal = opt_u32();
+    p.day = opt_u32();
+    if let Ok(d) = p.to_naive_date() {
+        let (y, o) = (d.year(), d.ordinal());
+        kani::assume(valid_yo(y, o));
+        let (m, dd) = md_of_ordinal(y, o);
+        if let Some(v) = p.year { assert!(v == y); }
+        if let Some(v) = p.year_div_100 { assert!(y >= 0 && v == y / 100); }
+        if let Some(v) = p.year_mod_100 { assert!(y >= 0 && v == y % 100); }
+        if let Some(v) = p.quarter { assert!(v == (m - 1) / 3 + 1); }
+        if let Some(v) = p.month { assert!(v == m); }
+        if let Some(v) = p.day { assert!(v == dd); }
+        if let Some(v) = p.ordinal { assert!(v == o); }
+        kani::cover!(p.year.is_none() && p.year_div_100.is_some());
+        kani::cover!(p.year_mod_100.is_some() && p.year.is_none() && p.year_div_100.is_none());
+        kani::cover!(p.quarter.is_some() && p.ordinal.is_some());
+    }
+}
+
+/// a test zone in which EVERY wall-clock time is a fold between +02:00 (earlier instant) and +01:00 (later instant)
+#[derive(Clone, Copy, Debug)]
+struct FoldZone;
+impl chrono::TimeZone for FoldZone {
+    type Offset = chrono::FixedOffset;
+    fn from_offset(_: &chrono::FixedOffset) -> Self {
+        FoldZone
+    }
+    fn offset_from_local_date(&self, _: &NaiveDate) -> chrono::offset::LocalResult<chrono::FixedOffset> {
+        chrono::offset::LocalResult::Ambiguous(chrono::FixedOffset::east_opt(7200).unwrap(), chrono::FixedOffset::east_opt(3600).unwrap())
+    }
+    fn offset_from_local_datetime(&self, _: &chrono::NaiveDateTime) -> chrono::offset::LocalResult<chrono::FixedOffset> {
+        chrono::offset::LocalResult::Ambiguous(chrono::FixedOffset::east_opt(7200).unwrap(), chrono::FixedOffset::east_opt(3600).unwrap())
+    }
+    fn offset_from_utc_date(&self, _: &NaiveDate) -> chrono::FixedOffset {
+        chrono::FixedOffset::east_opt(3600).unwrap()
+    }
+    fn offset_from_utc_datetime(&self, _: &chrono::NaiveDateTime) -> chrono::FixedOffset {
+        chrono::FixedOffset::east_opt(3600).unwrap()
+    }
+}
+
+// @ob tier=quick timeout=900 mem=10
+// @desc resolution in a zone where the wall-clock time is ambiguous: to_datetime_with_timezone returns a value only if its offset equals the supplied offset field (never the other candidate), reports an unmatched offset as IMPOSSIBLE and a missing offset as NOT_ENOUGH
+// @bounds a fixed wall-clock date-time (2021-10-31 02:30:00) in a two-offset fold zone (+02:00 / +01:00); the offset field absent or any i32
+// @funcs Parsed::to_datetime_with_timezone (Ambiguous arm, check_offset), to_naive_datetime_with_offset
+#[kani::proof]
+fn c14_ambiguous_offset_choice() {
+    let mut p = Parsed::new();
+    p.year = Some(2021);
+    p.month = Some(10);
+    p.day = Some(31);
+    p.hour_div_12 = Some(0);
+    p.hour_mod_12 = Some(2);
+    p.minute = Some(30);
+    p.second = Some(0);
+    p.offset = opt_i32();
+    match p.to_datetime_with_timezone(&FoldZone) {
+        Ok(dt) => {
+            use chrono::Offset;
+            let got = dt.offset().fix().local_minus_utc();
+            assert!(p.offset == Some(got) && (got == 3600 || got == 7200));
+            assert!(dt.naive_local() == NaiveDate::from_ymd_opt(2021, 10, 31).unwrap().and_hms_opt(2, 30, 0).unwrap());
+        }
+        Err(e) => {
+            match p.offset {
+                None => assert!(e.kind() == ParseErrorKind::NotEnough),
+                Some(o) => assert!(o != 3600 && o != 7200 && e.kind() == ParseErrorKind::Impossible),
+            }
+        }
+    }
+    kani::cover!(p.offset == Some(7200));
+    kani::cover!(p.offset.is_none());
+}
